@@ -149,6 +149,34 @@ class Corpus:
         return self.meta.get(name, {}).get("terminates", True)
 
 
+def repo_theories(scratch, eqlog_exe):
+    """the repository's own test theories (without model declarations), compiled by the real compiler; used by the
+    rule-level checks only"""
+    src = os.path.join(scratch, "repo_src")
+    out = os.path.join(scratch, "repo_out")
+    shutil.rmtree(src, ignore_errors=True)
+    os.makedirs(src)
+    import refsem
+    progs = {}
+    for f in sorted(glob.glob(os.path.join(REPO, "eqlog-test-eval", "src", "*.eql"))):
+        text = open(f).read()
+        try:
+            refsem.parse(text)
+        except Exception:
+            continue          # model declarations etc.: outside the reference parser
+        name = os.path.basename(f)[:-4]
+        shutil.copy(f, os.path.join(src, name + ".eql"))
+        progs["repo_" + name] = {"kind": "repo", "eql": os.path.join(src, name + ".eql"), "file": name}
+    p = sh([eqlog_exe, src, out], timeout=900)
+    if p.returncode != 0:
+        raise Inconclusive("the compiler fails on the repository's own theories: " + (p.stdout + p.stderr)[-1000:])
+    for k, v in progs.items():
+        v["rs"] = os.path.join(out, M.snake(v["file"]) + ".eql.rs")
+        if not os.path.exists(v["rs"]):
+            raise Inconclusive("no generated module for " + k)
+    return progs
+
+
 # ---------------------------------------------------------------------------------------------
 # lemma tasks (run in worker processes)
 def run_lemma_task(task):
